@@ -190,7 +190,7 @@ Theorem quantify_rec_spec fuel : ∀ s u ord q fa cache r s',
   match r with
   | Ok (x, cache') => valid s' x ∧ lvl_of s u ≤ lvl_of s' x ∧ cache_ok s' q fa cache' ∧
         ∀ a, D s' x a = true ↔ qsem s fa q u a
-  | Err e => e = ENeedsReordering ∧ is_Some (last_len s)
+  | Err e => benign s e
   end.
 Proof.
   induction fuel as [|f IH]; intros s u ord q fa cache r s' HI Hu Hnr Hord Hc Hfuel; [lia|].
@@ -238,7 +238,7 @@ Proof.
   apply IH in Ep' as (HI1&He1&Hf1&Hp); [|done|done|done|by apply Hord'|done|lia].
   destruct rp as [[p c1]|e]; cycle 1.
   { rewrite (bind_err _ _ _ _ _ Ep). intros [= <- <-].
-    destruct Hp as [-> ?]. by split_and!. }
+    by split_and!. }
   rewrite (bind_ok _ _ _ _ _ Ep). destruct Hp as (Hpv&Hpl&Hc1&HpD).
   (* high cofactor, in the extended manager *)
   assert (Hnv1 : nvars s1 = nvars s) by (by apply extends_nvars).
@@ -251,8 +251,7 @@ Proof.
     [|done|done|done|by apply Hord'|done|rewrite Hnv1, Elw1; lia].
   destruct rq as [[q' c2]|e]; cycle 1.
   { rewrite (bind_err _ _ _ _ _ Eq). intros [= <- <-].
-    destruct Hq as [-> Hll]. split_and!; [done|by etrans|by etrans|done|].
-    destruct Hf1 as (E&_). by rewrite <- E. }
+    split_and!; [done|by etrans|by etrans|]. exact (benign_frame _ _ _ Hf1 Hq). }
   rewrite (bind_ok _ _ _ _ _ Eq). destruct Hq as (Hqv&Hql&Hc2&HqD).
   rewrite Elw1 in Hql.
   assert (He02 : extends s s2) by (by etrans).
@@ -275,7 +274,7 @@ Proof.
             match rw with
             | Ok x => valid s3 x ∧ i ≤ lvl_of s3 x ∧
                       ∀ a, D s3 x a = true ↔ qsem s fa q u a
-            | Err e => e = ENeedsReordering ∧ is_Some (last_len s2)
+            | Err e => benign s2 e
             end).
   { subst m. destruct (decide (i ∈ q)) as [Hiq|Hiq]; [destruct fa|].
     - (* forall: p /\ q *)
@@ -301,7 +300,7 @@ Proof.
     - (* the level is kept *)
       apply find_or_add_spec in Ew as (HI3&He3&Hf3&Hr); [|done..].
       split; [done|split; [done|split; [done|]]].
-      destruct rw as [x|e]; [|by destruct Hr as (?&?&_)].
+      destruct rw as [x|e]; [|by destruct Hr as (?&_)].
       destruct Hr as (Hxv&Hxl&HxD). split; [done|split; [done|]].
       intros a. rewrite HxD.
       rewrite (qsem_node_out s fa q u v w i a HDu Hiq).
@@ -309,8 +308,7 @@ Proof.
   clearbody m. destruct Hm as (HI3&He3&Hf3&Hr).
   destruct rw as [x|e]; cycle 1.
   { rewrite (bind_err _ _ _ _ _ Ew). intros [= <- <-].
-    destruct Hr as (->&Hll). split_and!; [done|by etrans|by do 2 etrans|done|].
-    destruct Hf1 as (E1&_), Hf2 as (E2&_). by rewrite <- E1, <- E2. }
+    split_and!; [done|by etrans|by do 2 etrans|]. exact (benign_frame _ _ _ Hf1 (benign_frame _ _ _ Hf2 Hr)). }
   rewrite (bind_ok _ _ _ _ _ Ew). destruct Hr as (Hxv&Hxl&HxD).
   cbn [ret]. intros [= <- <-].
   assert (He03 : extends s s3) by (by etrans).
@@ -428,13 +426,13 @@ Qed.
 
 (** with the hypothesis on the level set stated in the reordering context *)
 Lemma quantify_names_spec_ctx s u qvars fa q r s' :
-  Inv s → valid s u → last_len s = None →
+  Inv s → valid s u → last_len s = None → max_nodes s = None →
   map_to_level_set true qvars (s <| rctx := true |>) = (Ok q, s <| rctx := true |>) →
   quantify_names u qvars fa s = (r, s') →
   ∃ x, r = Ok x ∧ Inv s' ∧ extends s s' ∧ valid s' x ∧
        ∀ a, D s' x a = true ↔ qsem s fa q u a.
 Proof.
-  intros HI Hu Hoff Hq Hrun. unfold quantify_names in Hrun.
+  intros HI Hu Hoff Hmx Hq Hrun. unfold quantify_names in Hrun.
   apply try_to_reorder_inert in Hrun as (r1&s1&Hrun&Hcase).
   set (s0 := s <| rctx := true |>) in *.
   rewrite (bind_ok _ _ _ _ _ Hq) in Hrun. cbn [bind get] in Hrun.
@@ -446,7 +444,7 @@ Proof.
     [|done|done|by left|apply ord_ok_sorted_levels|apply cache_ok_empty|lia].
   assert (Hll : last_len s0 = None) by done.
   destruct rr as [[x c]|e]; cycle 1.
-  { destruct Hr as [_ [l Hl]]. congruence. }
+  { by destruct (benign_never s0 e Hll Hmx). }
   rewrite (bind_ok _ _ _ _ _ Er) in Hrun. cbn [ret fst] in Hrun.
   injection Hrun as <- <-.
   destruct Hcase as [[[=] _]|[-> ->]].
@@ -475,14 +473,14 @@ Proof.
 Qed.
 
 Theorem quantify_spec_ctx s u byname qvars fa q r s' :
-  Inv s → valid s u → last_len s = None →
+  Inv s → valid s u → last_len s = None → max_nodes s = None →
   map_to_level_set byname qvars (s <| rctx := true |>) = (Ok q, s <| rctx := true |>) →
   quantify u byname qvars fa s = (r, s') →
   ∃ x, r = Ok x ∧ Inv s' ∧ extends s s' ∧ valid s' x ∧
        ∀ a, D s' x a = true ↔ qsem s fa q u a.
 Proof.
   destruct byname; [apply quantify_names_spec_ctx|].
-  intros HI Hu Hoff Hq Hrun.
+  intros HI Hu Hoff Hmx Hq Hrun.
   destruct (quantify_levels_run s u qvars fa q (s <| rctx := true |>)) as (_&_&Hd&E);
     [by rewrite Hq|done|].
   rewrite E in Hrun.
@@ -491,52 +489,52 @@ Proof.
 Qed.
 
 Theorem quantify_spec s u byname qvars fa q r s' :
-  Inv s → valid s u → last_len s = None →
+  Inv s → valid s u → last_len s = None → max_nodes s = None →
   fst (map_to_level_set byname qvars s) = Ok q →
   quantify u byname qvars fa s = (r, s') →
   ∃ x, r = Ok x ∧ Inv s' ∧ extends s s' ∧ valid s' x ∧
        ∀ a, D s' x a = true ↔ qsem s fa q u a.
 Proof.
-  intros HI Hu Hoff Hq. apply quantify_spec_ctx; try done.
+  intros HI Hu Hoff Hmx Hq. apply quantify_spec_ctx; try done.
   by rewrite map_to_level_set_rctx, Hq.
 Qed.
 
 (** the result does not depend on the quantified levels *)
 Corollary quantify_indep s u byname qvars fa q x s' a a' :
-  Inv s → valid s u → last_len s = None →
+  Inv s → valid s u → last_len s = None → max_nodes s = None →
   fst (map_to_level_set byname qvars s) = Ok q →
   quantify u byname qvars fa s = (Ok x, s') →
   agree_off q a a' → D s' x a = D s' x a'.
 Proof.
-  intros HI Hu Hoff Hq Hrun Ha.
-  destruct (quantify_spec _ _ _ _ _ _ _ _ HI Hu Hoff Hq Hrun) as (x'&[= <-]&_&_&_&HD).
+  intros HI Hu Hoff Hmx Hq Hrun Ha.
+  destruct (quantify_spec _ _ _ _ _ _ _ _ HI Hu Hoff Hmx Hq Hrun) as (x'&[= <-]&_&_&_&HD).
   apply bool_eq_iff. rewrite !HD. by apply qsem_agree.
 Qed.
 
 (** quantifying over levels the function does not depend on (in particular
     over no level at all) returns the very same reference *)
 Corollary quantify_noop s u byname qvars fa q x s' :
-  Inv s → valid s u → last_len s = None →
+  Inv s → valid s u → last_len s = None → max_nodes s = None →
   fst (map_to_level_set byname qvars s) = Ok q →
   quantify u byname qvars fa s = (Ok x, s') →
   (∀ a b, agree_off q a b → D s u a = D s u b) →
   x = u.
 Proof.
-  intros HI Hu Hoff Hq Hrun Hind.
-  destruct (quantify_spec _ _ _ _ _ _ _ _ HI Hu Hoff Hq Hrun) as (x'&[= <-]&HI'&He&Hx&HD).
+  intros HI Hu Hoff Hmx Hq Hrun Hind.
+  destruct (quantify_spec _ _ _ _ _ _ _ _ HI Hu Hoff Hmx Hq Hrun) as (x'&[= <-]&HI'&He&Hx&HD).
   apply (canonical_levels s' HI'); [done|by apply (valid_extends s s')|].
   intros a. apply bool_eq_iff. rewrite HD, (D_extends s s' u) by done.
   apply qsem_const. intros b Hb. symmetry. by apply Hind.
 Qed.
 
 Corollary quantify_noop_empty s u byname qvars fa x s' :
-  Inv s → valid s u → last_len s = None →
+  Inv s → valid s u → last_len s = None → max_nodes s = None →
   fst (map_to_level_set byname qvars s) = Ok ∅ →
   quantify u byname qvars fa s = (Ok x, s') →
   x = u.
 Proof.
-  intros HI Hu Hoff Hq Hrun.
-  apply (quantify_noop s u byname qvars fa ∅ x s' HI Hu Hoff Hq Hrun).
+  intros HI Hu Hoff Hmx Hq Hrun.
+  apply (quantify_noop s u byname qvars fa ∅ x s' HI Hu Hoff Hmx Hq Hrun).
   intros a b Hab. apply (D_indep s HI); [done|]. intros j _.
   by apply (proj1 (agree_off_empty a b)).
 Qed.
